@@ -12,7 +12,7 @@ import (
 
 func init() {
 	register(&propCheck{id: "C03", needRoot: true, run: checkC03,
-		explanation: "Decided statically: (1) FORMAT — the ICS-23 leaf op is built as prefix = varint(0) varint(1) varint(version) with SHA256 / SHA256 pre-hash / VAR_PROTO length, and each inner op as varint(height) varint(size) varint(version) followed by either 0x20‖left‖0x20 with an empty suffix, or 0x20 with suffix 0x20‖right — i.e. exactly the pinned hash pre-image with a hole at the child; the per-level proof node takes height and size from the node itself and the sibling hash from the child on the OPPOSITE side of the direction descended; (2) DOM/ERR — asking for a non-membership proof of a present key leaves with an error before any proof is built; a proof is never returned together with an error and the proof path's result is not used before its error is examined. Added in the build round: proofs never consult the fast index and versioned proofs use the committed snapshot (OWN-proof-from-tree); TABLE-neighbours — the absence proof looks up rank-1 (only when rank >= 1) and rank, and proves exactly those two keys. NOT decided: that produced proofs verify, that they fail for a wrong key/value/root (value-level)."})
+		explanation: "Decided statically: (1) FORMAT — the ICS-23 leaf op is built as prefix = varint(0) varint(1) varint(version) with SHA256 / SHA256 pre-hash / VAR_PROTO length, and each inner op as varint(height) varint(size) varint(version) followed by either 0x20‖left‖0x20 with an empty suffix, or 0x20 with suffix 0x20‖right — i.e. exactly the pinned hash pre-image with a hole at the child; the per-level proof node takes height and size from the node itself and the sibling hash from the child on the OPPOSITE side of the direction descended; (2) DOM/ERR — asking for a non-membership proof of a present key leaves with an error before any proof is built; a proof is never returned together with an error and the proof path's result is not used before its error is examined. Added in the build round: proofs never consult the fast index and versioned proofs use the committed snapshot (OWN-proof-from-tree); TABLE-neighbours — the absence proof looks up rank-1 (only when rank >= 1) and rank, and proves exactly those two keys. NOT decided: that produced proofs verify, that they fail for a wrong key/value/root (value-level). Rules added in the later seeding rounds (each listed with what it decides in this file's rule table) are described in DESIGN.md §3 \"Third and fourth seeding rounds\" and Appendix C3–C5."})
 }
 
 func checkC03(c *Ctx) {
